@@ -205,6 +205,17 @@ def _observe(case, run_seconds=20):
         before = copy.deepcopy(real)
         collect_names([{'k': 'expr', 'name': '', 'e': case['expr']}], names)
 
+    if case.get('prerun') and case['kind'] == 'script':
+        # the host re-uses ONE options object for consecutive runs: execute_script resets the counter at entry
+        try:
+            execute_script(copy.deepcopy(real), opts)
+        except Exception:  # pylint: disable=broad-except
+            pass
+        trace.clear()
+        for gv in case['globals']:
+            g[gv['name']] = real_value(gv['val'])
+        for name in [n for n in g if n not in {x['name'] for x in case['globals']} and not (n in SCRIPT_FUNCTIONS and g[n] is SCRIPT_FUNCTIONS[n])]:
+            del g[name]
     status, arg, url, ret = 'done', '', [], {'t': 'null'}
     old = signal.signal(signal.SIGALRM, _alarm)
     signal.alarm(run_seconds)
